@@ -8,7 +8,7 @@ from .. import exact as X, bridge as B, gen, genbody as GB, admit as A
 from . import c02, c03
 
 ID = "C04"
-USE_WITNESS = True
+WITNESS = ("eps", "round")
 RULE = (
     "all 49 ordered pairs of {Point, Line, Plane, Segment, HalfLine, ConvexPolygon, ConvexPolyhedron} are "
     "enumerated (one group of strata per ordered pair); operands come from the relation-recipe generators of "
